@@ -624,8 +624,10 @@ fn shown_elements<E: Elem>(out: &str) -> Vec<String> {
             }
             i += 1;
         } else if E::TRACKED {
-            if b[i] == b'#' && i + 1 < b.len() && b[i + 1].is_ascii_digit() {
-                let mut j = i + 1;
+            // `#<digits>`, or `B#<digits>` for the heap-owning element
+            let st = if b[i] == b'B' && i + 2 < b.len() && b[i + 1] == b'#' && b[i + 2].is_ascii_digit() { i + 1 } else { i };
+            if b[st] == b'#' && st + 1 < b.len() && b[st + 1].is_ascii_digit() {
+                let mut j = st + 1;
                 while j < b.len() && b[j].is_ascii_digit() {
                     j += 1;
                 }
@@ -970,6 +972,9 @@ fn main() {
     // quick: complete graphs for every K in 0..=8, three element sizes (0, 4, 24 bytes)
     units!(&mut ctx, &mut tot, &mut unit, false, 3, [Tr<0>, TrZ, Tr<5>], [0, 1, 2, 3, 4, 5, 6, 7, 8]);
     units!(&mut ctx, &mut tot, &mut unit, false, 0, [Tr<0>, TrZ], [9, 10, 11, 12]);
+    // heap-owning elements (a Box payload): a typed copy of a slot whose element was already dropped is then a dangling Box,
+    // which the memory-monitor substrates can see (for plain integers every bit pattern is valid)
+    units!(&mut ctx, &mut tot, &mut unit, false, 0, [TrB], [0, 1, 2, 3, 4]);
     if thorough {
         units!(&mut ctx, &mut tot, &mut unit, false, 0, [Tr<0>, TrZ], [13, 14, 15, 16, 17]);
         units!(&mut ctx, &mut tot, &mut unit, false, 0, [Tr<0>], [31, 32, 33]);
